@@ -207,16 +207,20 @@ rfbClientIteratorHead(rfbClientIteratorPtr i)
 rfbClientPtr
 rfbClientIteratorNext(rfbClientIteratorPtr i)
 {
+  rfbClientPtr prev = NULL;
+
   if (!i)
     return NULL;
+
+  /* The next pointer is read and the reference on the client it points to is taken while
+     holding the list mutex; rfbClientConnectionGone() unlinks a client under the same mutex and
+     only when nobody holds a reference, so the record cannot be freed in between. */
+  LOCK(rfbClientListMutex);
   if(i->next == 0) {
-    LOCK(rfbClientListMutex);
     i->next = i->screen->clientHead;
-    UNLOCK(rfbClientListMutex);
   } else {
-    rfbClientPtr cl = i->next;
+    prev = i->next;
     i->next = i->next->next;
-    rfbDecrClientRef(cl);
   }
 
 #if defined(LIBVNCSERVER_HAVE_LIBPTHREAD) || defined(LIBVNCSERVER_HAVE_WIN32THREADS)
@@ -226,8 +230,12 @@ rfbClientIteratorNext(rfbClientIteratorPtr i)
     if(i->next)
       rfbIncrClientRef(i->next);
 #endif
+  UNLOCK(rfbClientListMutex);
 
-    return i->next;
+  if(prev)
+    rfbDecrClientRef(prev);
+
+  return i->next;
 }
 
 void
@@ -556,6 +564,25 @@ rfbClientConnectionGone(rfbClientPtr cl)
     int i;
 #endif
 
+#if defined(LIBVNCSERVER_HAVE_LIBPTHREAD) || defined(LIBVNCSERVER_HAVE_WIN32THREADS)
+    if (cl->screen->backgroundLoop) {
+      /* Wait until no iterator holds a reference, then unlink - both decided under the list
+         mutex, which iterators hold while they take their reference: a client that is still
+         referenced stays in the list (its next pointer stays valid), an unlinked client is
+         referenced by nobody. */
+      for (;;) {
+	LOCK(rfbClientListMutex);
+	LOCK(cl->refCountMutex);
+	if (cl->refCount <= 0) {
+	  UNLOCK(cl->refCountMutex);
+	  break;                       /* still holding the list mutex */
+	}
+	UNLOCK(rfbClientListMutex);
+	WAIT(cl->deleteCond,cl->refCountMutex);
+	UNLOCK(cl->refCountMutex);
+      }
+    } else
+#endif
     LOCK(rfbClientListMutex);
 
     if (cl->prev)
@@ -566,19 +593,6 @@ rfbClientConnectionGone(rfbClientPtr cl)
         cl->next->prev = cl->prev;
 
     UNLOCK(rfbClientListMutex);
-
-#if defined(LIBVNCSERVER_HAVE_LIBPTHREAD) || defined(LIBVNCSERVER_HAVE_WIN32THREADS)
-    if (cl->screen->backgroundLoop) {
-      int i;
-      do {
-	LOCK(cl->refCountMutex);
-	i=cl->refCount;
-	if(i>0)
-	  WAIT(cl->deleteCond,cl->refCountMutex);
-	UNLOCK(cl->refCountMutex);
-      } while(i>0);
-    }
-#endif
 
     if(cl->sock != RFB_INVALID_SOCKET)
 	rfbCloseSocket(cl->sock);
